@@ -631,6 +631,12 @@ impl<W: std::io::Write + std::io::Seek> FlacSampleWriter<W> {
     }
 }
 
+impl<W: std::io::Write + std::io::Seek> Drop for FlacSampleWriter<W> {
+    fn drop(&mut self) {
+        let _ = self.finalize_inner();
+    }
+}
+
 impl FlacSampleWriter<BufWriter<File>> {
     /// Creates new FLAC file at the given path
     ///
@@ -945,6 +951,12 @@ impl<W: std::io::Write + std::io::Seek> FlacChannelWriter<W> {
     pub fn finalize(mut self) -> Result<(), Error> {
         self.finalize_inner()?;
         Ok(())
+    }
+}
+
+impl<W: std::io::Write + std::io::Seek> Drop for FlacChannelWriter<W> {
+    fn drop(&mut self) {
+        let _ = self.finalize_inner();
     }
 }
 
